@@ -1,6 +1,6 @@
 use super::dynamic_constraints_encoder::DynamicConstraintsEncoder;
 use crate::{
-    aa::{AAFramework, Argument, Semantics},
+    aa::{AAFramework, Argument, ArgumentSet, Semantics},
     sat::SatSolver,
     utils::LabelType,
 };
@@ -37,6 +37,7 @@ where
     buffer: Vec<DynamicsEvent<T>>,
     next_to_encode: Cell<usize>,
     encoder: DynamicConstraintsEncoder,
+    shadow_af: AAFramework<T>,
 }
 
 impl<T> BufferedDynamicConstraintsEncoder<T>
@@ -50,26 +51,31 @@ where
             buffer: Vec::new(),
             next_to_encode: Cell::new(0),
             encoder,
+            shadow_af: AAFramework::new_with_argument_set(ArgumentSet::new_with_labels(&[])),
         }
     }
 
     pub fn buffer_new_argument(&mut self, label: T) {
+        self.shadow_af.new_argument(label.clone());
         self.buffer.push(DynamicsEvent::NewArgument(label))
     }
 
     pub fn buffer_remove_argument(&mut self, label: &T) -> Result<()> {
+        self.shadow_af.remove_argument(label)?;
         self.buffer
             .push(DynamicsEvent::RemoveArgument(label.clone()));
         Ok(())
     }
 
     pub fn buffer_new_attack(&mut self, from: &T, to: &T) -> Result<()> {
+        self.shadow_af.new_attack(from, to)?;
         self.buffer
             .push(DynamicsEvent::NewAttack(from.clone(), to.clone()));
         Ok(())
     }
 
     pub fn buffer_remove_attack(&mut self, from: &T, to: &T) -> Result<()> {
+        self.shadow_af.remove_attack(from, to)?;
         self.buffer
             .push(DynamicsEvent::RemoveAttack(from.clone(), to.clone()));
         Ok(())
